@@ -184,6 +184,17 @@ CasesC03(lazy) ==
                     << [pk \in {"$parent"} |-> S("a.b")], <<"./-.json">>, Chains(<< <<"a", "a.b", "stdin">> >>) >>,
                     << <<>>, <<"a.b.json", "./-.yaml">>, Chains(<< <<"a", "a.b">>, <<"stdin">> >>) >>,
                     << [pk \in {"$parent"} |-> False], <<"./-.toml">>, Chains(<< <<"stdin">> >>) >> } }
+  (* a layer that APPENDS its document ($match: null) still hands it on to the layers below it: the *)
+  (* appended document and the document of the layer above both receive the descendant layer        *)
+  \cup { Case(FsOf(<<Plain("a", rot, 1), <<"a.b", IF rot = 0 THEN "yaml" ELSE "json", <<LayerDoc("a.b", [mk \in {"$match"} |-> Null])>> >>,
+                     Plain("a.b.c", rot, 3)>>, <<>>),
+              <<"a.b.c." \o ExtAt(3, rot)>>, FALSE, "/", "matchnull", Chains(<< <<"a", "a.b.c">>, <<"a.b", "a.b.c">> >>)) : rot \in {0, 1} }
+  \cup { Case(FsOf(<< <<"p1", "yaml", <<LayerDoc("a", [pk \in {"$parent"} |-> False])>> >>,
+                      <<"p2", "json", <<LayerDoc("a.b", [mk \in {"$match", "$parent"} |-> IF mk = "$match" THEN Null ELSE S("p1")])>> >>,
+                      <<"p3", "yaml", <<LayerDoc("top", [pk \in {"$parent"} |-> S("p2")])>> >> >>, <<>>),
+              <<"p3.yaml">>, FALSE, "/", "matchnull", Chains(<< <<"a", "top">>, <<"a.b", "top">> >>)) : dummy \in {1} }
+  \cup { Case(FsOf(<< <<"a", "yaml", <<LayerDoc("a", [mk \in {"$match"} |-> Null])>> >>, Plain("a.b", 0, 2)>>, <<>>),
+              <<"a.b.toml">>, FALSE, "/", "matchnull", Chains(<< <<"a", "a.b">> >>)) : dummy \in {1} }
   (* unsupported input extension, missing input *)
   \cup { Case(FsOf(<<Plain("a", 0, 1)>>, <<>>), <<inp>>, FALSE, "/", "badinput", Fails) : inp \in {"a.txt", "b.yaml", "a"} }
 
